@@ -963,6 +963,11 @@ class Interp:
     def value_of(self, node):
         return self.values.get(id(node))
 
+    def cur(self, node):
+        """Value of the most recent evaluation of `node` (the joined value only when it was never evaluated in this run)."""
+        v = self.last.get(id(node))
+        return v if v is not None else self.values.get(id(node))
+
     def e_Constant(self, n, frame, st):
         return const(n.value)
 
